@@ -86,6 +86,9 @@ def run_unit(kind, key, tier, known, seed=0, inner=1):
         _CTX.update(res=res, known=known, reg=reg, tier=tier, dump=dump,
                     timeout=timeout)
         n = len(res.obls)
+        if kind != 'lemma':
+            # a unit with many obligations asks for more solver processes
+            inner = max(inner, int(reg.get(key).get('opts', {}).get('parallel', 1)))
         if inner > 1 and n > 8:
             # obligations are independent: solve them in forked children (they
             # inherit the z3 terms; only plain data comes back)
